@@ -222,7 +222,10 @@ def tr(node, env):
         c = tr_prop(node.test, env)
         a, ta = tr(node.body, env)
         b, tb = tr(node.orelse, env)
-        t = unify_num(ta, tb)
+        if OPTINT in (ta, tb) and {ta, tb} <= {OPTINT, INT}:
+            t = OPTINT
+        else:
+            t = unify_num(ta, tb)
         return (f"(if {c} then {coerce(a, ta, t)} else {coerce(b, tb, t)})", t)
     if isinstance(node, ast.Call):
         fn = ast.unparse(node.func)
